@@ -17,6 +17,9 @@ func ghostSortOf(gd GhostDecl) string {
 	if strings.HasPrefix(gd.Sort, "*") {
 		return SInt
 	}
+	if strings.HasPrefix(gd.Sort, "[]") {
+		return SSlice
+	}
 	return sortOfDeclType(gd.Sort)
 }
 
